@@ -133,8 +133,9 @@ def defects(draw, design):
     if r["fld"] or r["sl"] is not None:
       tgt = R(n)                                    # existing part, new whole
       if t[0] == "s":
-        d["raw_groups"].append(blk([f"s.{n} @= s.{n}_src"]))
-        d["raw_decl"].append(f"s.{n}_src = Wire( {_tname(design, t)} )")
+        nn = n.replace("[", "_").replace("]", "")
+        d["raw_groups"].append(blk([f"s.{n} @= s.{nn}_src"]))
+        d["raw_decl"].append(f"s.{nn}_src = Wire( {_tname(design, t)} )")
       else:
         d["raw_groups"].append(blk([f"s.{n} @= 0"]))
     else:
